@@ -11,6 +11,7 @@ pub struct Iter<'a, T> {
     coords: Vec<usize>,
     offset: usize,
     index: usize,
+    elements: usize,
 }
 
 impl<'a, T> Iter<'a, T> {
@@ -20,6 +21,7 @@ impl<'a, T> Iter<'a, T> {
             coords: vec![0; view.dimensions()],
             offset: 0,
             index: 0,
+            elements: view.shape.elements(),
         }
     }
 
@@ -52,11 +54,23 @@ impl<'a, T> Iterator for Iter<'a, T> {
     type Item = &'a T;
 
     fn next(&mut self) -> Option<Self::Item> {
-        self.impl_next_rec(self.view.dimensions() - 1)
+        if self.index >= self.elements {
+            // Exhausted (or empty): leave the state untouched, so that we keep returning `None`
+            return None;
+        }
+
+        match self.view.dimensions().checked_sub(1) {
+            Some(axis) => self.impl_next_rec(axis),
+            None => {
+                // A view with no axes left holds exactly one element
+                self.index += 1;
+                self.view.data.first()
+            }
+        }
     }
 
     fn size_hint(&self) -> (usize, Option<usize>) {
-        let n = self.view.shape.elements() - self.index;
+        let n = self.elements.saturating_sub(self.index);
         (n, Some(n))
     }
 }
